@@ -130,9 +130,8 @@ func fixHeaderOf(p packets.Packet) *packets.FixHeader {
 }
 
 // fromGmqtt converts a decoded (or constructed) gmqtt packet into the neutral
-// mqttx value, copying all data. gmqtt has no field for the MQTT 3.1 DUP flag of
-// PUBREL/SUBSCRIBE/UNSUBSCRIBE (it only survives in FixHeader.Flags of a decoded
-// packet), so Dup is always false for them.
+// mqttx value, copying all data (including the MQTT 3.1 DUP flag of
+// PUBREL/SUBSCRIBE/UNSUBSCRIBE, for which gmqtt has a field since cc52901).
 func fromGmqtt(p packets.Packet, _ mqttx.Version) (*mqttx.Packet, error) {
 	switch t := p.(type) {
 	case *packets.Connect:
@@ -170,7 +169,7 @@ func fromGmqtt(p packets.Packet, _ mqttx.Version) (*mqttx.Packet, error) {
 		if t == nil {
 			break
 		}
-		return &mqttx.Packet{Type: mqttx.PUBREL, PacketID: t.PacketID, Code: t.Code, Props: propsFromGmqtt(t.Properties)}, nil
+		return &mqttx.Packet{Type: mqttx.PUBREL, Dup: t.Dup, PacketID: t.PacketID, Code: t.Code, Props: propsFromGmqtt(t.Properties)}, nil
 	case *packets.Pubcomp:
 		if t == nil {
 			break
@@ -180,7 +179,7 @@ func fromGmqtt(p packets.Packet, _ mqttx.Version) (*mqttx.Packet, error) {
 		if t == nil {
 			break
 		}
-		q := &mqttx.Packet{Type: mqttx.SUBSCRIBE, PacketID: t.PacketID, Props: propsFromGmqtt(t.Properties)}
+		q := &mqttx.Packet{Type: mqttx.SUBSCRIBE, Dup: t.Dup, PacketID: t.PacketID, Props: propsFromGmqtt(t.Properties)}
 		for _, s := range t.Topics {
 			q.Subs = append(q.Subs, mqttx.Sub{Filter: s.Name, QoS: s.Qos, NoLocal: s.NoLocal, RAP: s.RetainAsPublished, RetainHandling: s.RetainHandling})
 		}
@@ -194,7 +193,7 @@ func fromGmqtt(p packets.Packet, _ mqttx.Version) (*mqttx.Packet, error) {
 		if t == nil {
 			break
 		}
-		return &mqttx.Packet{Type: mqttx.UNSUBSCRIBE, PacketID: t.PacketID, Filters: append([]string(nil), t.Topics...), Props: propsFromGmqtt(t.Properties)}, nil
+		return &mqttx.Packet{Type: mqttx.UNSUBSCRIBE, Dup: t.Dup, PacketID: t.PacketID, Filters: append([]string(nil), t.Topics...), Props: propsFromGmqtt(t.Properties)}, nil
 	case *packets.Unsuback:
 		if t == nil {
 			break
@@ -303,11 +302,11 @@ func toGmqtt(p *mqttx.Packet, v mqttx.Version) packets.Packet {
 	case mqttx.PUBREC:
 		return &packets.Pubrec{Version: gv, PacketID: p.PacketID, Code: p.Code, Properties: pr}
 	case mqttx.PUBREL:
-		return &packets.Pubrel{PacketID: p.PacketID, Code: p.Code, Properties: pr}
+		return &packets.Pubrel{PacketID: p.PacketID, Code: p.Code, Properties: pr, Dup: p.Dup}
 	case mqttx.PUBCOMP:
 		return &packets.Pubcomp{Version: gv, PacketID: p.PacketID, Code: p.Code, Properties: pr}
 	case mqttx.SUBSCRIBE:
-		g := &packets.Subscribe{Version: gv, PacketID: p.PacketID, Properties: pr}
+		g := &packets.Subscribe{Version: gv, PacketID: p.PacketID, Properties: pr, Dup: p.Dup}
 		for _, s := range p.Subs {
 			g.Topics = append(g.Topics, packets.Topic{Name: s.Filter, SubOptions: packets.SubOptions{Qos: s.QoS, RetainHandling: s.RetainHandling, NoLocal: s.NoLocal, RetainAsPublished: s.RAP}})
 		}
@@ -315,7 +314,7 @@ func toGmqtt(p *mqttx.Packet, v mqttx.Version) packets.Packet {
 	case mqttx.SUBACK:
 		return &packets.Suback{Version: gv, PacketID: p.PacketID, Payload: cpb(p.Codes), Properties: pr}
 	case mqttx.UNSUBSCRIBE:
-		return &packets.Unsubscribe{Version: gv, PacketID: p.PacketID, Topics: append([]string(nil), p.Filters...), Properties: pr}
+		return &packets.Unsubscribe{Version: gv, PacketID: p.PacketID, Topics: append([]string(nil), p.Filters...), Properties: pr, Dup: p.Dup}
 	case mqttx.UNSUBACK:
 		return &packets.Unsuback{Version: gv, PacketID: p.PacketID, Payload: cpb(p.Codes), Properties: pr}
 	case mqttx.PINGREQ:
